@@ -36,7 +36,14 @@ specfun("pos_ok", ["a"],
         "        and ref(typed(a._last_child, 'TaskLevel')._level) != ref(a._task_level._level))")
 specfun("rep_ok", ["a"],
         "pos_ok(a) and dom(a._identification) == setof('task_uuid', 'action_type')"
-        " and forall(lambda b: b._successFields != a._identification, 'ref:obj')")
+        " and ref(a._identification) != ref(a._successFields)")
+# E12 (ownership): the _identification / _successFields dicts of distinct Actions are distinct objects -- both are created by dict
+# displays in Action.__init__ and never escape; stated where it is needed, as a targeted precondition:
+specfun("owns_success_fields", ["a"],
+        "implies(curact() is not None and curact() is not a, ref(a._successFields) != ref(typed(curact(), 'Action')._identification))")
+specfun("private_dict", ["d"],
+        "implies(curact() is not None, ref(d) != ref(typed(curact(), 'Action')._identification))")
+specfun("private_to", ["d", "a"], "ref(d) != ref(a._identification) and ref(d) != ref(a._successFields)")
 specfun("cur_ok", [], "implies(curact() is not None, rep_ok(typed(curact(), 'Action')))")
 specfun("is_report", ["ev"],
         "ev.tag == 'write' and ev.d is None and (ev.e == 'eliot:destination_failure' or ev.e == 'eliot:serialization_failure'"
@@ -121,7 +128,7 @@ contract("iface::Extractor.__call__", params=["self", "exception"], returns="dic
          modifies=["#CALLS"],
          ensures=[("recorded", "CALLS == old(CALLS) + [Ev('ret', self, exception, None, result)]"),
                   ("field-names-are-str-and-not-eliot-reserved", "'self' not in result and 'message_type' not in result and 'action_status' not in result and '__eliot_logger__' not in result and '__eliot_serializer__' not in result and forall(lambda k: implies(contains(dict_of(result), k), is_str(k)), 'val')"),
-                  ("result-is-its-own", "fresh(result) or forall(lambda a: box(result) != a._identification and box(result) != a._successFields, 'ref:obj')")],
+                  ("result-is-its-own", "fresh(result) or private_dict(result)")],
          raises=[{"cls": "BaseException", "ensures": [("recorded", "CALLS == old(CALLS) + [Ev('exc', self, exception, None, exc)]")]}])
 
 from pyvc.spec import wf_fields
